@@ -42,11 +42,11 @@ CONSTANTS = {
         ("SHAPE_FILE_FINISH", _IW,
          r"Cannot write footer to file writer as it is closed" + _NW + r"self\.writer\.write_eos\(&self\.write_options\)\?;" + _NW +
          r"self\.writer\.write_all\(footer_data\)\?;\s*self\.writer\s*\.write_all\(&\(footer_data\.len\(\) as i(32)\)\.to_le_bytes\(\)\)\?;"
-         r"\s*self\.writer\.write_all\(&super::ARROW_MAGIC\)\?;\s*self\.writer\.flush\(\)\?;\s*self\.finished = true;", "int"),
+         r"\s*self\.writer\.write_all\(&super::ARROW_MAGIC\)\?;\s*self\.writer\.flush\(\)\?;\s*(?:self\.failed = false;\s*)?self\.finished = true;", "int"),
         # StreamWriter::finish: EOS, flush, then finished = true
         ("SHAPE_STREAM_FINISH", _IW,
          r"Cannot write footer to stream writer as it is closed" + _NW + r"self\.writer\.write_eos\(&self\.write_options\)\?;" + _NW +
-         r"self\.writer\.flush\(\)\?;\s*self\.finished = true;.*?(\d+)", "int"),
+         r"self\.writer\.flush\(\)\?;\s*(?:self\.failed = false;\s*)?self\.finished = true;.*?(\d+)", "int"),
         # FileWriter::try_new_with_options: leading magic + padding
         ("SHAPE_FILE_HEADER", _IW,
          r"writer\.write_all\(&super::ARROW_MAGIC\)\?;\s*writer\.write_all\(&PADDING\[\.\.pad_len\]\)\?;.*?(\d+)", "int"),
